@@ -4,7 +4,7 @@
    GenMru.v: a change of the source that changes the meaning of a translated method breaks a
    lemma here. *)
 Require Import Capp.Base Capp.Spec Capp.Rr Capp.ListCache Capp.ListCacheFacts Capp.RrLit Capp.LruLit Capp.LruLitFacts
-               Capp.GenPrims CappGen.GenMru.
+               Capp.GenPrims Capp.Conc Capp.GenConc CappGen.GenMru.
 From Coq Require Import Strings.String Lia.
 
 Section MruBridge.
@@ -308,6 +308,22 @@ Section MruBridge.
                   (fun s e _ => g_step_ok s e) h (lrul_init cap)) as Q.
     rewrite <- ll_run_is_run_res, D in Q. apply req_ok. apply Q. clear. induction h; constructor; auto.
   Qed.
+
+  (* ---- C06 on the translated program: in every execution of the lock-level machine (Conc.v, Section Lin: invoke,
+     acquire, body = one call of the generated program, release, return) every call returns what the mid-level
+     model returns when it runs the calls in the order of their critical sections ---- *)
+  Theorem generated_mru_lock_level_executions_return_model_results : forall cap ex st,
+      1 <= cap ->
+      mexec _ _ _ (tstep g_step RUnsupported) (minit _ _ _ (g_init cap)) ex st ->
+      let l := lin _ _ _ (tstep g_step RUnsupported) (g_init cap) (fun _ => None) ex in
+      (fun _ => True) (map (fun c => snd (fst c)) l) ->
+      map snd l = (fun h => snd (run (lc_step (pol true)) (lc_init cap) h)) (map (fun c => snd (fst c)) l).
+  Proof.
+    intros cap ex st Hc Hex.
+    refine (executions_have_the_results_of_the_model g_step RUnsupported (fun _ => True) (fun h => snd (run (lc_step (pol true)) (lc_init cap) h)) (g_init cap) _ ex st Hex).
+    intros h HP. destruct (generated_mru_no_UB_on_any_history cap h Hc) as (l' & D & _). eauto.
+  Qed.
 End MruBridge.
 
 Print Assumptions generated_mru_no_UB_on_any_history.
+Print Assumptions generated_mru_lock_level_executions_return_model_results.
